@@ -14,8 +14,12 @@ operations answered by contract and the scope inside `accept_block` sequentialis
             queue_block accepted the received block carrying the requested number; every failure ends without a signal
             (the dropped channel makes the requester retry).
 NOT decided (outside the claim, stated in DESIGN.md): lost-wake-up freedom and fairness under real interleavings of many
-requesters and per-peer workers (the queue content is re-havocked at every await instead), the accept loop of the
-per-peer worker (reserve / accept / spawn), and the fetcher in gossip/mod.rs."""
+ fetcher  - `run_block_fetcher` (props/c19_fetcher.py, scopes sequentialised): requests are issued for queued().next(),
+            next+1, ... with one in-flight permit each; each is kept until ITS block is queued and its permit until ITS
+            block is persisted.
+NOT decided (outside the claim, stated in DESIGN.md): lost-wake-up freedom and fairness under real interleavings of many
+requesters and per-peer workers (the queue content is re-havocked at every await instead) and the accept loop of the
+per-peer worker (reserve / accept / spawn)."""
 import time
 import z3
 from mirsym.core import (Exec, explore, solve, Num, Agg, Ref, Cell, Opaque, Panic, Unmodelled, BoundExceeded, num_cmp, to_z3_bool, UNIT)
@@ -389,6 +393,11 @@ def run(rep, db, tier, seed):
             rep.add(Obligation(name, 'inconclusive', f'{type(u).__name__}: {u}'[:700]))
     handle('Queue::request (insert, wait, retry on failure, cancel)', check_request)
     handle('Queue::accept_block (lowest announced request, removed in the critical section)', check_accept)
+    try:
+        from props import c19_fetcher
+        c19_fetcher.run(rep, db, tier)
+    except Exception as u:
+        rep.add(Obligation('block fetcher', 'inconclusive', f'{type(u).__name__}: {u}'[:600]))
     try:
         from props import c19_runner
         c19_runner.run(rep, db, tier)
